@@ -185,6 +185,50 @@ class ObjectMixin:
         raise Unsupported(f"hasattr on {type(obj).__name__}")
 
     # ================================================================== setattr
+    def havoc_mutable_state(self, obj: SObj, skip=()) -> list:
+        """Object state at the entry of a method under contract: every attribute that some method of the class other
+        than the constructor assigns is replaced by an unconstrained value (of its annotated type where the constructor
+        annotates it, otherwise a value about which nothing is known).  The constructor's values stay only for
+        attributes nothing else writes.  Returns the attribute names havocked."""
+        import ast as _ast
+
+        from .typesys import fresh_value
+        from .values import SHavoc
+
+        rec = self.st.objs[obj.oid]
+        ci = rec.ci
+        if ci is None:
+            return []
+        anns: dict = {}
+        written: dict = {}
+        for c in self.index.mro(ci):
+            for mname, node in c.methods.items():
+                for n in _ast.walk(node):
+                    tgts = []
+                    if isinstance(n, _ast.Assign):
+                        for t in n.targets:
+                            tgts += list(t.elts) if isinstance(t, (_ast.Tuple, _ast.List)) else [t]
+                    elif isinstance(n, (_ast.AugAssign, _ast.AnnAssign)):
+                        tgts = [n.target]
+                    for t in tgts:
+                        if isinstance(t, _ast.Attribute) and isinstance(t.value, _ast.Name) and t.value.id == "self":
+                            if mname in ("__init__", "__post_init__"):
+                                if isinstance(n, _ast.AnnAssign):
+                                    anns.setdefault(t.attr, (n.annotation, c.module))
+                            else:
+                                written.setdefault(t.attr, c)
+        out = []
+        for name in sorted(written):
+            if name in skip or name not in rec.fields:
+                continue
+            if name in anns:
+                ty = self.typer.from_ann(anns[name][0], anns[name][1])
+                rec.fields[name] = fresh_value(self.st, self.typer, ty, f"{rec.meta.get('name', 'self')}.{name}", det=True)
+            else:
+                rec.fields[name] = SHavoc(f"{rec.meta.get('name', 'self')}.{name}")
+            out.append(name)
+        return out
+
     def setattr(self, obj: V, name: str, v: V) -> None:
         if isinstance(obj, SOpt):
             if self.st.branch(obj.isnone):
